@@ -76,6 +76,11 @@ type World struct {
 
 	// FaultPlan, if set, decides the fate of every durable operation (called under Mu).
 	FaultPlan func(op *DiskOp) Decision
+	// ReadFault, if set, decides whether a LogStore.GetLog call fails (called
+	// under Mu, only for call sites where raft handles a read error).
+	ReadFault func(in *Instance, site string, index uint64) bool
+	// ReadFaultActive is the cheap pre-check (is any read fault armed for this server now?)
+	ReadFaultActive func(in *Instance) bool
 
 	nextPayload uint64
 	Debug       bool
